@@ -82,6 +82,9 @@ def build_cluster(spec):
     return cl
 
 
+HARNESS_ONLY = {"churn", "move_results", "drop_results", "reread_fetch", "reread_poll"}
+
+
 class Plan:
     """fault plan from data: {"write": {io_idx: k | ["fail", kind] | "intr"}, "read": {io_idx: n | "eof" | ["fail", kind] | "intr"},
     "write_chunk": n (accept at most n bytes per write), "read_chunk": n, "connect_fail": [hosts]}"""
@@ -187,7 +190,13 @@ def run_case(runner, case, stop_on_disagree=False):
             op, model_op = item, None
             cl.mutate = None
             net.raw_reply = None
-        if op.name == "consume_messageset":
+        if op.name in HARNESS_ONLY:
+            # ops that only concern the harness's handling of results (C18): the model is not involved
+            res, maxalloc = runner.h.call(op, net)
+            rec = {"op": op, "impl": res, "model": res, "impl_canon": res, "model_canon": res, "impl_trace": [], "model_trace": [],
+                   "maxalloc": maxalloc, "requests": [], "replies": [], "raw_events": net.take_events(), "leftover": {}, "unread": {},
+                   "result_agree": True, "trace_agree": True, "agree": True}
+        elif op.name == "consume_messageset":
             # the model has no MessageSets object: translate to the equivalent consume_message
             k = op.args[0]
             model_op = T("drop_nothing")
